@@ -5,7 +5,7 @@ from functools import partial
 
 from contracts import write_changes as WC
 from props import lexical as LX
-from verif.common import Ctx, Ob
+from verif.common import Ctx, Ob, Outcome
 from verif.pyvc.adapter import contract_ob
 
 PROPERTY = "C18"
@@ -16,6 +16,67 @@ TECHNIQUE = "pre/postconditions on the real functions, VCs from the AST discharg
 EXPLANATION = "C18: P contracts (tri-state dispatch, frame of _apply_changes, emitter on Absent/null/empty), R three token shapes, B: model documents x requests through octave_write(changes) on files."
 ASSUMPTIONS = ["representative document spines", "the file is canonical before the change for the 'same lines' clause (C01)"]
 TRUSTED_BASE = ["z3", "verif.pyvc", "verif.reglang"]
+
+
+def probe_unwritable_keys():
+    """concrete stand-in for C18.F2: requests naming a new key the reader would not take back as one key must be refused"""
+    from props import C18_b
+
+    cases = list(C18_b._canon_cases())
+    bad = []
+    for i, (kf, k, vf, v) in enumerate(cases):
+        if kf == "plain" or vf not in ("scalar", "list"):
+            continue
+        failed, text = C18_b._canon_one(i)
+        if failed:
+            bad.append(text)
+    return bool(bad), "; ".join(bad[:2])[:600] or "every request naming an unwritable key is refused (or its file is a fixed point)"
+
+
+def ob_writable_keys(ctx: Ctx) -> Outcome:
+    """C18.F2 — `a value request sets exactly that value`: a new key is written as it is spelled, so the request is
+    refused unless the READER takes `KEY::x` back as an assignment to exactly that key. Contract on the source:
+    (a) WriteTool._is_writable_key tokenizes `<name>::x` with the real lexer and requires tokens[0] to be an IDENTIFIER
+        whose value is the name, followed by ASSIGN (LexerError => False);
+    (b) in execute, `self._apply_changes(doc, changes)` is dominated by the computation of the unwritable keys of the
+        request with that predicate and an error return when there is one."""
+    import ast
+
+    from verif import extract
+    from verif.common import shape_verdict
+
+    W = "octave_mcp.mcp.write"
+    problems = []
+    try:
+        pred = extract.find_def(W, "WriteTool._is_writable_key")
+        ex = extract.find_def(W, "WriteTool.execute")
+    except extract.ExtractionError as e:
+        return shape_verdict("ast-shape", [str(e)], probe_unwritable_keys, count=1, replay={"runner": "props.C18:probe_unwritable_keys", "args": {}})
+    src = ast.unparse(pred)
+    for need in ("tokenize(f'{name}::x')", "except LexerError:\n        return False", "tokens[0].type == TokenType.IDENTIFIER", "tokens[0].value == name", "tokens[1].type == TokenType.ASSIGN"):
+        if need.replace("\\n", "\n") not in src:
+            problems.append(f"_is_writable_key: `{need}` not found")
+    ok = False
+    for node in ast.walk(ex):
+        for field in ("body", "orelse"):
+            blk = getattr(node, field, None)
+            if not isinstance(blk, list):
+                continue
+            idx = next((i for i, st in enumerate(blk) if any(isinstance(c, ast.Call) and ast.unparse(c.func) == "self._apply_changes" for c in ast.walk(st))), None)
+            if idx is None:
+                continue
+            for i in range(idx):
+                st = blk[i]
+                if isinstance(st, ast.Assign) and "self._is_writable_key(k)" in ast.unparse(st.value) and "for k in changes" in ast.unparse(st.value) and i + 1 < len(blk):
+                    nm = ast.unparse(st.targets[0])
+                    nxt = blk[i + 1]
+                    if isinstance(nxt, ast.If) and ast.unparse(nxt.test) == nm and isinstance(nxt.body[-1], ast.Return) and "_error_envelope" in ast.unparse(nxt.body[-1]):
+                        ok = True
+    if not ok:
+        problems.append("execute: self._apply_changes(doc, changes) is not dominated by `bad = [k for k in changes if ... not self._is_writable_key(k)]; if bad: return <error envelope>`")
+    if problems:
+        return shape_verdict("ast-shape", problems, probe_unwritable_keys, count=2, replay={"runner": "props.C18:probe_unwritable_keys", "args": {}})
+    return Outcome.ok("ast-shape", count=2)
 
 
 def obligations(ctx: Ctx):
@@ -41,11 +102,13 @@ def obligations(ctx: Ctx):
     W = "octave_mcp.mcp.write:WriteTool.execute"
     obs += [
         Ob(f"{P}.F1.state", "F", "the document a request edits is built from the file read by THIS call: the tool's closure keeps no process state (module objects, memoised parsed documents) that an earlier request could have edited", [W], _FO.ob_no_effects([W], ("global_write",))),
+        Ob(f"{P}.F2.keys", "F", "a request naming a key the reader would not take back as one key (space, leading digit, reserved word, sigil, '::') is refused before anything is applied: the predicate is the real lexer on `KEY::x`", [W, "octave_mcp.mcp.write:WriteTool._is_writable_key"], ob_writable_keys),
         Ob(f"{P}.F1.memo", "F", "memoised functions in the tool's closure are keyed by arguments whose equality implies they are indistinguishable", [W], _FO.ob_memo_keys([W])),
     ]
     try:
         from props import C18_b
 
+        obs.append(Ob(f"{P}.B2", "B", "the file a changes request produces is canonical: the next normalize accepts it and leaves it byte-identical (unusual keys, nested / odd-keyed maps, control characters)", ["octave_mcp.mcp.write:WriteTool.execute"], C18_b.ob_b2, timeout=1200))
         obs.append(Ob(f"{P}.B1", "B", "octave_write(changes=...) on files: unmentioned keys keep their lines; DELETE / null / value per key; META merge; sequences", ["octave_mcp.mcp.write:WriteTool.execute"], C18_b.ob_b1, timeout=3000))
     except ImportError:
         pass
